@@ -419,6 +419,24 @@ def gen_literal_boundary(rng):
     return samples
 
 
+PHRASES = ["ready to be merged", "waiting for review", "changes requested", "closed-won't fix", "needs more info",
+           "in progress now", "blocked by other", "re-opened again", "done and shipped", "semi-automatic run", "a b c d e f g",
+           "x-y-z to check", "on hold for now", "to be confirmed", "not applicable"]
+
+
+def gen_long_literal(rng):
+    """a Literal whose rendered value list is long (well over 100 characters) and whose values hold spaces and hyphens, as
+    a field and as the element of a list: however the emitter lays the annotation out, the values stay what they are"""
+    k = rng.randint(5, 9)
+    vals = rng.sample(PHRASES, k=k)
+    samples = [{"status": v, "n": i} for i, v in enumerate(vals)]
+    samples[0]["history"] = list(vals)
+    samples[-1]["child"] = {"state": vals[0], "k": 1}
+    for v in vals[1:]:
+        samples.append({"status": vals[0], "n": 0, "child": {"state": v, "k": 2}})
+    return samples
+
+
 def gen_hidden_union_merge(rng):
     """two similar models whose shared field is a required container in one and, in the other (a list of objects), a union
     of several kinds that is also missing once: after the merge the field is a union with an Optional[Union[...]] member,
